@@ -1,6 +1,7 @@
 package rules
 
 import (
+	"strings"
 	"golang.org/x/tools/go/ssa"
 
 	"pwv/internal/core"
@@ -75,37 +76,44 @@ func runC09(c *Ctx) {
 				okArgs = isSrc && isFmt && core.IsNamed(fmtP.Type(), pkWire, "FormatCode") && oidPath == ".Oid"
 			}
 			R.Check(okArgs, "C09.R1", "Column.Write:encode-arguments", c.at(enc), "the value is encoded as the column's type in the requested format", "Encode(column.Oid, format, src, buf)", "Encode is not called with the column's OID, the format parameter and the source value")
-			// length operand
+			// length operand: over all length appends, -1 is emitted exactly on the nil-buffer edge and len(buffer) otherwise
 			n := 0
+			okLen, okNull := false, false
+			extra := ""
+			var lastLen ssa.CallInstruction
 			for _, ci := range core.Calls(cw) {
 				switch writerMethod(ci) {
 				case "AddInt32":
 					n++
+					lastLen = ci
 					if buf == nil || !anyDominates(nilEdges(eerr, true), ci.Block()) {
 						R.Fail("C09.R1", "Column.Write:append-after-encode-error", c.at(ci), "nothing is appended when encoding failed", "the length is appended on a path where Encode's error was not tested")
 					}
 					var ls []ssa.Value
 					leaves(ci.Common().Args[1], map[ssa.Value]bool{}, &ls)
-					okLen, okNull := false, false
-					extra := ""
 					ph, isPhi := ci.Common().Args[1].(*ssa.Phi)
+					siteNull := false
 					for _, l := range ls {
 						if k, ok := core.ConstInt(l); ok && k == -1 {
-							// the -1 edge must come from the `buf == nil` edge
+							// the -1 must come from the `buf == nil` edge: a phi edge taken there, or a call site that lies on it
 							if isPhi {
 								for i, e := range ph.Edges {
 									if e == l {
 										pred := ph.Block().Preds[i]
 										if anyDominates(nilEdges(buf, true), pred) {
-											okNull = true
+											okNull, siteNull = true, true
 										}
 										for _, ne := range nilEdges(buf, true) { // the phi edge itself is the nil edge
 											if ne.from == pred && ne.to() == ph.Block() {
-												okNull = true
+												okNull, siteNull = true, true
 											}
 										}
 									}
 								}
+							} else if anyDominates(nilEdges(buf, true), ci.Block()) {
+								okNull, siteNull = true, true
+							} else {
+								extra = "-1 outside the nil-buffer edge"
 							}
 							continue
 						}
@@ -115,11 +123,17 @@ func runC09(c *Ctx) {
 						}
 						extra = l.String()
 					}
-					R.Check(okLen && okNull && extra == "", "C09.R1", "Column.Write:length-field", c.at(ci), "the length field is -1 exactly when Encode returned a nil buffer, and len(buffer) otherwise", "phi{-1 on the buffer == nil edge, int32(len(buffer))}", sprintf("length sources: len(buffer)=%v, -1 on the nil-buffer edge=%v, other=%q - NULL is decided by something other than Encode's result (e.g. src == nil misses typed NULLs)", okLen, okNull, extra))
+					// a site that can only emit len(buffer) must not be reachable with a nil buffer (it would announce 0 for NULL)
+					if !siteNull && buf != nil && !anyDominates(nilEdges(buf, false), ci.Block()) {
+						extra = "len(buffer) is appended on a path on which the buffer may be nil"
+					}
 				case "AddBytes":
 					n++
 					R.Check(ci.Common().Args[1] == buf, "C09.R1", "Column.Write:payload", c.at(ci), "the payload appended is exactly the buffer Encode returned", "AddBytes(buffer)", "the bytes appended are not Encode's result")
 				}
+			}
+			if lastLen != nil {
+				R.Check(okLen && okNull && extra == "", "C09.R1", "Column.Write:length-field", c.at(lastLen), "the length field is -1 exactly when Encode returned a nil buffer, and len(buffer) otherwise", "-1 on the buffer == nil edge (phi edge or a call site on that edge), int32(len(buffer)) otherwise", sprintf("length sources: len(buffer)=%v, -1 on the nil-buffer edge=%v, other=%q - NULL is decided by something other than Encode's result (e.g. src == nil misses typed NULLs)", okLen, okNull, extra))
 			}
 			R.Floor("C09.R1", "length / payload appends in Column.Write", n, 2)
 		}
@@ -130,11 +144,21 @@ func runC09(c *Ctx) {
 		R.Analysed(fname(hsq))
 		def := c.P.Method("wire", "Columns", "Define")
 		ndw := c.P.Func("wire", "NewDataWriter")
+		// the function of the simple-query path that announces the columns (handleSimpleQuery or a helper it calls per statement)
+		host := hsq
+		if len(callsIn(hsq, calleeIs(def))) == 0 {
+			for _, ci := range core.Calls(hsq) {
+				if h := core.StaticCallee(ci); h != nil && c.P.InPkg(h, "wire") && h.Blocks != nil && len(callsIn(h, calleeIs(def))) > 0 {
+					host = h
+					R.Analysed(fname(h))
+				}
+			}
+		}
 		var dcols, wcols []ssa.Value
-		for _, ci := range callsIn(hsq, calleeIs(def)) {
+		for _, ci := range callsIn(host, calleeIs(def)) {
 			dcols = append(dcols, ci.Common().Args[0])
 		}
-		for _, ci := range callsIn(hsq, calleeIs(ndw)) {
+		for _, ci := range callsIn(host, calleeIs(ndw)) {
 			wcols = append(wcols, ci.Common().Args[1])
 		}
 		ok := len(dcols) == 1 && len(wcols) == 1
@@ -142,7 +166,7 @@ func runC09(c *Ctx) {
 			r1, p1 := pathOf(dcols[0])
 			r2, p2 := pathOf(wcols[0])
 			i1, i2 := indexOf(dcols[0]), indexOf(wcols[0])
-			ok = r1 == r2 && p1 == p2 && p1 == "[].columns" && i1 != nil && i1 == i2
+			ok = r1 == r2 && p1 == p2 && strings.HasSuffix(p1, ".columns") && i1 == i2
 		}
 		R.Check(ok, "C09.R2", "handleSimpleQuery:same-columns", c.atFn(hsq), "the RowDescription and the result writer of a statement are built from the same column set of that statement", "both use statements[index].columns with the same index", "RowDescription and the row writer use different column sets: DataRow and RowDescription field counts can disagree")
 	}
@@ -183,7 +207,7 @@ func runC09(c *Ctx) {
 	if def != nil && wr != nil {
 		d1, _ := c.formatTable(def, "Define")
 		d2, _ := c.formatTable(wr, "Write")
-		R.Check(d1 == d2 && d1 != "" && d1[0] == '{', "C09.R3", "format-table-agreement", c.atFn(wr), "the format announced in RowDescription is the format used to encode the DataRow", "both select: "+d1, "RowDescription and DataRow select formats differently: ["+d1+"] vs ["+d2+"]")
+		R.Check(d1 == d2 && strings.Contains(d1, "given["), "C09.R3", "format-table-agreement", c.atFn(wr), "the format announced in RowDescription is the format used to encode the DataRow", "both select: "+d1, "RowDescription and DataRow select formats differently: ["+d1+"] vs ["+d2+"]")
 	}
 	// Column.Define announces the format it was given
 	if cd := c.P.Method("wire", "Column", "Define"); cd != nil {
